@@ -5,6 +5,7 @@
    satisfies the invariant of reachable pinsets (inv, itself proved for every history), every call.
    step (CPin h o) is by definition step (CRpcPin (pin_with_opts h o)); path calls reduce to CID calls. *)
 From V Require Import Base.Common Model.C03_Alloc Model.C04_ClusterOps Proofs.C04_ClusterOps Model.C04_Check Proofs.C04_Check.
+From V Require Import Proofs.C03_Monitor Proofs.C04_Monitor.
 From Coq Require Import Permutation.
 Open Scope Z_scope.
 
@@ -206,3 +207,107 @@ Example c04_example :
   aget 1%N st = None /\
   match aget 2%N st with Some s => o_meta (p_opts s) = [(1%N, 1%N)] /\ p_allocs s = [1; 2; 0]%N /\ o_update (p_opts s) = Some 1%N | None => False end.
 Proof. vm_compute. auto. Qed.
+
+(* --- the monitor and the model (Proofs/C04_Monitor.v) --- *)
+
+(* completeness: for every configuration, environment, Go-map order, pinset and call, what the model answers (result and
+   pinset) passes the monitor. Input invariants (what the harness guarantees, each stated): the pinset is reachable (inv) and its
+   entries have one value per metadata key and duplicate-free allocations (inv2: both kept by every call, inv2_step); the
+   call's metadata is a map and an RPC pin's allocations are a set (call_wf); one metric per peer; ord is a permutation *)
+Theorem step_passes_monitor c e ord st k : inv2 st -> call_wf k -> order_oracle ord -> one_metric_per_peer e ->
+  spec_okb c e st k (obsres_of (fst (step c e ord st k))) (snd (step c e ord st k)) = true.
+Proof. exact (step_passes_monitor_l c e ord st k). Qed.
+Print Assumptions step_passes_monitor.
+
+Theorem monitor_invariant_kept c e ord st k : inv2 st -> call_wf k -> order_oracle ord -> one_metric_per_peer e ->
+  inv2 (snd (step c e ord st k)).
+Proof. exact (inv2_step c e ord st k). Qed.
+Print Assumptions monitor_invariant_kept.
+
+(* ... hence at every point of every call history, each call with its own environment and map order *)
+Theorem history_passes_monitor c h e ord k : hist_wf (h ++ [(e, ord, k)]) ->
+  let st := run c [] h in
+  spec_okb c e st k (obsres_of (fst (step c e ord st k))) (snd (step c e ord st k)) = true.
+Proof. exact (history_passes_monitor_l c h e ord k). Qed.
+Print Assumptions history_passes_monitor.
+
+(* soundness of the remaining clauses: what an accepted successful observation means *)
+(* unpin: the entry was there and is the one returned; it is gone; for a meta pin it, its cluster DAG and the DAG's links are
+   gone; every other entry is as before (unchanged_outside: same keys, entries equal up to the order of allocations / metadata) *)
+Theorem spec_okb_unpin_sound c e st h q st' : spec_okb c e st (CUnpin h) (OOk q) st' = true ->
+  exists p, aget h st = Some p /\ pin_equiv p q /\
+    ((p_ty p <> MetaT /\ aget h st' = None /\ unchanged_outside [h] st st') \/
+     (p_ty p = MetaT /\ exists rf ls, p_ref p = Some rf /\ aget rf (e_links e) = Some ls /\
+        (forall k, In k (h :: rf :: ls) -> aget k st' = None) /\ unchanged_outside (h :: rf :: ls) st st')).
+Proof. exact (spec_okb_unpin_sound_l c e st h q st'). Qed.
+Print Assumptions spec_okb_unpin_sound.
+
+(* update: the source was pinned; the new CID's entry is the source entry under the new CID (source recorded, name / expiry
+   overridden as coded) and is what was returned; nothing else changed *)
+Theorem spec_okb_update_sound c e st f t o q st' : spec_okb c e st (CPinUpdate f t o) (OOk q) st' = true ->
+  exists ex s, aget f st = Some ex /\ aget t st' = Some s /\
+    pin_equiv s (pb_norm (updated_pin (e_now e) ex f t o)) /\ pin_equiv s (pb_norm q) /\ unchanged_outside [t] st st'.
+Proof. exact (spec_okb_update_sound_l c e st f t o q st'). Qed.
+Print Assumptions spec_okb_update_sound.
+
+(* pin (no update redirect): none of the listed refusal conditions held; the CID has one entry, it is what was returned, of the
+   requested type, carrying the requested options as the property reads them (opts_read_same), nothing else changed, and the
+   allocation clause holds *)
+Theorem spec_okb_pin_sound c e st p0 q st' : no_redirectb p0 = true -> spec_okb c e st (CRpcPin p0) (OOk q) st' = true ->
+  let h := p_cid p0 in let o' := with_defaults c (p_opts p0) in
+  factors_valid (o_rmin o') (o_rmax o') = true /\ expire_past (e_now e) (o_expire o') = false /\
+  (forall ex, aget h st = Some ex -> p_ty ex = p_ty p0 /\ (o_mode (p_opts ex) = 0%N -> o_mode o' = 0%N)) /\
+  exists s, aget h st' = Some s /\ unchanged_outside [h] st st' /\ pin_equiv s (pb_norm q) /\ p_ty s = p_ty p0 /\
+            opts_read_same (p_opts s) (pb_norm_opts (p_depth s) o') /\ alloc_clause c e st p0 s = true.
+Proof. exact (spec_okb_pin_sound_l c e st p0 q st'). Qed.
+Print Assumptions spec_okb_pin_sound.
+
+Theorem spec_okb_pin_redirect_sound c e st p0 u q st' : o_update (p_opts p0) = Some u -> u <> p_cid p0 ->
+  spec_okb c e st (CRpcPin p0) (OOk q) st' = true ->
+  exists ex s, aget u st = Some ex /\ aget (p_cid p0) st' = Some s /\
+    pin_equiv s (pb_norm (updated_pin (e_now e) ex u (p_cid p0) (p_opts p0))) /\ pin_equiv s (pb_norm q) /\
+    unchanged_outside [p_cid p0] st st'.
+Proof. exact (spec_okb_pin_redirect_sound_l c e st p0 u q st'). Qed.
+Print Assumptions spec_okb_pin_redirect_sound.
+
+Theorem spec_okb_calls_reduce c e st h o pa r st' :
+  spec_okb c e st (CPin h o) r st' = spec_okb c e st (CRpcPin (pin_with_opts h o)) r st' /\
+  (aget pa (e_resolve e) = Some h -> spec_okb c e st (CPinPath pa o) r st' = spec_okb c e st (CPin h o) r st' /\
+                                     spec_okb c e st (CUnpinPath pa) r st' = spec_okb c e st (CUnpin h) r st').
+Proof. exact (C04_Monitor.spec_okb_calls_reduce c e st h o pa r st'). Qed.
+Print Assumptions spec_okb_calls_reduce.
+
+(* the allocation clause read: literally the stored request -> its allocations stay; an option differs and allocations are
+   named -> they are stored; a first pin without named allocations -> C03's property alloc_spec of the stored allocation *)
+Theorem alloc_clause_readings c e st p0 s :
+  alloc_clause c e st p0 s = true -> p_ty p0 <> MetaT -> mode_of_depth (p_depth p0) = o_mode (with_defaults c (p_opts p0)) ->
+  let o' := with_defaults c (p_opts p0) in
+  (forall ex, aget (p_cid p0) st = Some ex -> identical_req o' (p_depth p0) ex = true -> literal_req o' ex = true ->
+              p_allocs ex <> [] -> Permutation (p_allocs s) (p_allocs ex)) /\
+  ((forall ex, aget (p_cid p0) st = Some ex -> identical_req o' (p_depth p0) ex = false) -> p_allocs p0 <> [] ->
+   everywhere o' = false -> Permutation (p_allocs s) (p_allocs p0)) /\
+  (aget (p_cid p0) st = None -> p_allocs p0 = [] -> one_metric_per_peer e -> valid_factors (o_rmin o') (o_rmax o') ->
+   alloc_spec (e_now e) (mk_input (o_rmin o') (o_rmax o') [] (e_metrics e) [] (o_ualloc o') (alloc_rev c)) (p_allocs s)).
+Proof. exact (fun H T M => conj (fun ex Ex I1 I2 Ne => alloc_clause_identical c e st p0 s ex H T M Ex I1 I2 Ne)
+               (conj (fun Hid Ne Ev => alloc_clause_explicit c e st p0 s H T M Hid Ne Ev)
+                     (fun Ex Pa Hm Vf => alloc_clause_first c e st p0 s H T M Ex Pa Hm Vf))). Qed.
+Print Assumptions alloc_clause_readings.
+
+(* non-vacuity: the history of c04_example satisfies every guard; the monitor accepts the model's answer to a re-pin with a
+   metadata key removed and rejects the same answer with the old metadata left in place (the shape of S4) *)
+Example c04_monitor_example :
+  let c := mk_cfg 2 3 false false in
+  let e := mk_env 0 [mk_metric 0 (Some 70%N) 3600 true; mk_metric 1 (Some 10%N) 3600 true; mk_metric 2 (Some 30%N) 3600 true] [] [] in
+  let o1 := mk_opts 0 0 1%N 0%N 0%N [] None [(1%N, 1%N); (2%N, 2%N)] None [] in
+  let o2 := mk_opts 0 0 1%N 0%N 0%N [] None [(1%N, 1%N)] None [] in
+  let id := fun x : list N => x in
+  let h := [(e, id, CPin 1%N o1)] in
+  hist_wf (h ++ [(e, id, CPin 1%N o2)]) /\
+  let st := run c [] h in
+  let r := step c e id st (CPin 1%N o2) in
+  spec_okb c e st (CPin 1%N o2) (obsres_of (fst r)) (snd r) = true /\
+  spec_okb c e st (CPin 1%N o2) (obsres_of (fst r)) st = false.
+Proof. cbv zeta. split.
+  - intros x [<-|[<-|[]]]; (split; [|split]); cbn; try (intros xs; apply Permutation_refl);
+      unfold meta_nodup, one_metric_per_peer; cbn; repeat constructor; cbn; intuition discriminate.
+  - split; vm_compute; reflexivity. Qed.
